@@ -29,6 +29,8 @@ def check(ctx: Ctx) -> None:
     r3(ctx)
     from .c14 import r2_parsers
     r2_parsers(ctx, "C07.R4")
+    from .c05 import r1_noskip
+    r1_noskip(ctx, "C07.R5")
 
 
 def _assigns(ctx: Ctx, f: FunctionInfo, h: ast.ExceptHandler, name: str, value: object) -> bool:
@@ -147,7 +149,8 @@ def r2(ctx: Ctx) -> None:
     for d in ctx.calls(lp, storage="delete_file"):
         org = sl.origins(d.ast.args[0] if isinstance(d.ast, ast.Call) and d.ast.args else None, d.id)
         ok = any(isinstance(c, ast.Call) and ctx.prog.const_str(c.args[0], lp.module, lp) == "metadata/inflight"
-                 for c in org["calls"] if isinstance(c, ast.Call) and c.args and (dotted(c.func) or "").endswith("list_files"))
+                 for c in org["calls"] if isinstance(c, ast.Call) and c.args and (dotted(c.func) or "").endswith("list_files")) \
+            and not any(isinstance(c, ast.Call) and (dotted(c.func) or "").endswith("_marker_target") for c in org["calls"])
         ctx.ob("C07.R2", lp, "the marker sweep deletes only listed marker files", d, ok,
                "the only delete before reachability is known targets metadata/inflight/* entries")
 
